@@ -3,7 +3,6 @@ package checks
 import (
 	"fmt"
 	"reflect"
-	"sort"
 	"strings"
 
 	"github.com/antonmedv/expr"
@@ -459,45 +458,6 @@ func explicit(t *term.Term) *term.Term {
 	return &cp
 }
 
-// callBounds: 2 if some slice has two bounds that both make calls, 1 if some
-// slice has one such bound, else 0.
-func callBounds(t *term.Term) int {
-	calls := func(x *term.Term) bool {
-		found := false
-		if x != nil {
-			x.Walk(func(y *term.Term) {
-				if y != nil && (y.K == term.KCall || y.K == term.KMethod) {
-					found = true
-				}
-			})
-		}
-		return found
-	}
-	out := 0
-	t.Walk(func(x *term.Term) {
-		if x == nil || x.K != term.KSlice {
-			return
-		}
-		n := 0
-		if calls(x.Sub[1]) {
-			n++
-		}
-		if calls(x.Sub[2]) {
-			n++
-		}
-		if n > out {
-			out = n
-		}
-	})
-	return out
-}
-
-func sortedCalls(cs []string) string {
-	cp := append([]string{}, cs...)
-	sort.Strings(cp)
-	return strings.Join(cp, ";")
-}
-
 func (tb opTable) options() []expr.Option {
 	var out []expr.Option
 	var ops []string
@@ -611,21 +571,6 @@ func c17Case(c *runner.Ctx, idx uint64) {
 				e3 := newOpEnv(runner.NewRng(seed))
 				rr := ref.Eval(ex, e3, 0)
 				l3 := strings.Join(e3.log.Calls, ";")
-				l1 := l1
-				if n := callBounds(ex); n > 0 {
-					// no order is defined between the two bounds of a slice
-					// (the library evaluates the upper one first): which calls
-					// precede a failing bound is not settled, and two calling
-					// bounds are compared as a multiset
-					if rr.Fail != nil || o1.Failed() {
-						if (rr.Fail != nil) == o1.Failed() {
-							c.Count("reference_unspecified", 1)
-							continue
-						}
-					} else if n > 1 {
-						l1, l3 = sortedCalls(e1.log.Calls), sortedCalls(e3.log.Calls)
-					}
-				}
 				switch {
 				case rr.Unspec != "" || rr.Tainted || ex.HasUnspec():
 					c.Count("reference_unspecified", 1)
